@@ -12,7 +12,7 @@ LEVEL = "fault_enumeration"
 RULE = (
     "for every base blob (quick: SHA512/nonce and SHA256/P-256 in both layouts + one 300-byte plaintext; thorough: 4 hashes x {nonce,DH,P256,P384} x 2 layouts + the long one), exhaustively: "
     "every single-bit flip, every truncation length, deletion of each byte, insertion of 00/FF at each offset, every TLV-header byte and key-identifier header byte replaced by each of "
-    "{00,01,7F,80,81,FF}, blobs whose ciphertext is exactly 64 KiB, 1 MiB (thorough: also 2 MiB, 3 MiB, 16 MiB; sparse flips and truncations) (64 KiB: every bit of its headers and of the first/last bytes of the ciphertext, two bits of every 1021st byte, truncations around 4 KiB/64 KiB) through the sync and the async API, and all pairs of flips among {bit 0 of every byte whose flip was harmless} u {first bit of every field}. Forgeries that need no secret: key position overwritten with one of 11 positions x 2 L0, wrapped CEK re-wrapped under a KEK derived from one of 7 publicly known byte strings (empty, zeros, the root key id, the key nonce, ...) used as L2 key / L1 key / L0 seed / root key, content re-encrypted (IV kept). Each mutated blob is decrypted by the real unprotect API with an offline "
+    "{00,01,7F,80,81,FF}, blobs whose ciphertext is exactly 64 KiB, 1 MiB (thorough: also 2 MiB, 3 MiB, 16 MiB; sparse flips and truncations) (64 KiB: every bit of its headers and of the first/last bytes of the ciphertext, two bits of every 1021st byte, truncations around 4 KiB/64 KiB) through the sync and the async API, and all pairs of flips among {bit 0 of every byte whose flip was harmless} u {first bit of every field}. Forgeries that need no secret: key position overwritten with one of 11 positions x 2 L0, wrapped CEK re-wrapped under a KEK derived from one of 7 publicly known byte strings (empty, zeros, the root key id, the key nonce, ...) used as L2 key / L1 key / L0 seed / root key, content re-encrypted (IV kept). The same forgeries against caches with a history (seed keys fetched from the DC; then a protect served from the cache; root key + a protect at (31,31)). Each mutated blob is decrypted by the real unprotect API with an offline "
     "cache holding the right root key (network seams raise). Blobs rejected by the authentication checks are decrypted a second time in the same process (a retry must not succeed). Oracle: original plaintext | any exception | needs-network; different bytes is the violation. Distinct by (blob, mutation); non-trivial = the "
     "mutated bytes differ from the original."
 )
@@ -25,10 +25,15 @@ def worker_init() -> None:
     seams.block_network()
 
 
+_hist_cache: t.Dict[str, t.Any] = {"cache": None}
+
+
 def unprotect(base: bm.Base, data: bytes, api: str = "sync"):
+    import copy
+
     import dpapi_ng
 
-    cache = seams.make_cache(base.rk)
+    cache = seams.make_cache(base.rk) if _hist_cache["cache"] is None else copy.deepcopy(_hist_cache["cache"])
     try:
         if api == "async":
             from mc import vloop
@@ -68,6 +73,7 @@ def shards(tier: str, seed: int):
     for b in bm.bases(seed, tier):
         if "/nonce/" in b.bid:
             out.append(["forge", b.bid])
+            out.append(["forge-hist", b.bid])
     sizes = [65536, 2**20] if tier == "quick" else [65536, 2**20, 2**21, 3 * 2**20, 2**24]
     for lay in ("env", "trail"):
         for api in ("sync", "async"):
@@ -150,8 +156,58 @@ def forge(base: bm.Base, weak: str, stage: str, pos, l0: int) -> bytes:
     return cms.encode(b._replace(keyid=gkdi.pack_keyid(kid2), enc_cek=keywrap.aes_key_wrap(kek, cek), enc_content=enc))
 
 
+def history_cache(base: bm.Base, kind: str):
+    """a KeyCache with a past: 'dc' = seed keys of the blob's own position fetched from the reference DC by an unprotect;
+    'dc+protect' = followed by a protect in the same interval served from the cache; 'root+protect@31' = root key loaded and a protect
+    while the clock stands in the last interval (31, 31) of the blob's L0"""
+    import dpapi_ng
+
+    from env import refdc, secctx, transport
+    from ref import gkdi
+
+    pos = bm.POS if kind != "root+protect@31" else (bm.POS[0], 31, 31)
+    ft = (pos[0] * 1024 + pos[1] * 32 + pos[2]) * gkdi.B + 777
+    kw = dict(server="dc", username="u", password="p", auth_protocol="ntlm")
+    if kind == "root+protect@31":
+        cache = seams.make_cache(base.rk)
+    else:
+        cache = dpapi_ng.KeyCache()
+    dc = refdc.DC([base.rk], now=pos)
+    with seams.clock(ft), transport.network(dc), secctx.scripted_client(lambda u, p, **k: secctx.ScriptedContext([b"C1"], 16)):
+        if kind != "root+protect@31":
+            assert bytes(dpapi_ng.ncrypt_unprotect_secret(base.blob, cache=cache, **kw)) == base.plaintext
+        if kind != "dc":
+            dpapi_ng.ncrypt_protect_secret(b"later", bm.SID, root_key_identifier=base.rk.rkid, cache=cache, **kw)
+    return cache
+
+
 def run_shard(shard, tier, seed, acc) -> None:
     worker_init()
+    _hist_cache["cache"] = None
+    if shard[0] == "forge-hist":
+        base = bm.base_by_id(seed, shard[1])
+        n = 0
+        try:
+            for kind in ("dc", "dc+protect", "root+protect@31"):
+                _hist_cache["cache"] = None
+                _hist_cache["cache"] = history_cache(base, kind)
+                st, v = unprotect(base, base.blob)
+                if st != "ok" or bytes(v) != base.plaintext:
+                    acc.violate("forge-hist.base-does-not-decrypt", ["forge-hist", base.bid, kind], {"outcome": st, "value": repr(v)[:100]})
+                    continue
+                for weak in WEAK:
+                    for stage in STAGES:
+                        for pos in FORGE_POS:
+                            label = ["forge", weak, stage, list(pos), bm.POS[0], kind]
+                            oc = judge(acc, base, label, forge(base, weak, stage, pos, bm.POS[0]), [], "async" if n % 2 else "sync")
+                            acc.outcome("forge-hist:" + oc.split(":")[0])
+                            n += 1
+        finally:
+            _hist_cache["cache"] = None
+        acc.ev(n)
+        acc.nt_counted(n)
+        acc.sample({"blob": base.bid, "forgery against caches with a history": ["dc", "dc+protect", "root+protect@31"]})
+        return
     if shard[0] == "forge":
         base = bm.base_by_id(seed, shard[1])
         st, v = unprotect(base, base.blob)
@@ -249,7 +305,12 @@ def replay(case, seed, acc) -> None:
         return
     base = bm.base_by_id(seed, bid)
     if label[0] == "forge":
-        judge(acc, base, label, forge(base, label[1], label[2], tuple(label[3]), label[4]), [], api)
+        try:
+            if len(label) > 5:
+                _hist_cache["cache"] = history_cache(base, label[5])
+            judge(acc, base, label, forge(base, label[1], label[2], tuple(label[3]), label[4]), [], api)
+        finally:
+            _hist_cache["cache"] = None
         return
     judge(acc, base, label, bm.apply_simple(base.blob, label), bm.field_map(base.blob), api)
 
